@@ -61,6 +61,11 @@ CHECKS.update({
                   'the C03 terms of the OPW forward() are differentiated symbolically and the solver decides d t/d joint_i = sigma_i z_i x (t - o_i) and dR/d joint_i R^T = skew(sigma_i z_i) with z_i, o_i from forward_with_joint_poses (all parameters, offsets, sign symbols free); '
                   'torques = J^T F, velocities = try_inverse(J) w, isometry/vector entry points agree. The O(eps) remainder between the two is Taylor (argued, not solved).', design='6/C15'),
 })
+CHECKS.update({
+ 'C13': dict(text='Inductive step, not call histories: Tree::extend executed from its generic MIR (N := f64) from an ARBITRARY tree of <= 3 nodes satisfying the invariant (every parent shape, symbolic coordinates, kd-tree nearest = any node, '
+                  'is_free/sampler/stop flag as oracles) - afterwards the invariant holds again (new node free, finite, within a step of its parent, inside the limit box, parent index below its own), Trapped leaves the tree unchanged, Reached => within a step of the target; '
+                  'connect, get_until_root (all shapes) and the path assembly / cancellation / tree alternation of dual_rrt_connect over those contracts. Termination and completeness are outside.', design='6/C13'),
+})
 PENDING = {}
 NA = {}
 def main():
